@@ -408,7 +408,12 @@ impl EntryBoundAlignedBuffer {
     /// Allocates a new buffer of the given size, it is correctly aligned to store `EntryBound`s.
     fn new(size: usize) -> EntryBoundAlignedBuffer {
         let entry_bound_size = size_of::<EntryBound>();
-        let size = size.div_ceil(entry_bound_size) * entry_bound_size;
+        let Some(size) = size.checked_next_multiple_of(entry_bound_size) else {
+            panic!(
+                "the allocator is unable to allocate that much memory ({} bytes requested)",
+                size
+            );
+        };
         let layout = Layout::from_size_align(size, align_of::<EntryBound>()).unwrap();
         let ptr = unsafe { alloc(layout) };
         let Some(ptr) = NonNull::new(ptr) else {
